@@ -43,7 +43,7 @@ class JointDegreeCover(JointDegree):
                 del jd[i]
 
         # convert jds to jdd
-        self.convert_jds_to_jdd(jds)
+        self.convert_jds_to_jdd([tuple(jd) for jd in jds])
 
     @property
     def cover(self) -> list:
